@@ -1,4 +1,4 @@
-import RsMatterVerif.Lemmas.Subs
+import RsMatterVerif.Lemmas.SubsLive
 /-!
 # C13 — a subscriber eventually learns every change it subscribed to
 
@@ -65,6 +65,12 @@ theorem nextId_step_le {s : State} (op : Op) (h : WF s) (hw : s.changed.nextId +
     simp only [State.step, State.purge]
     repeat' split
     all_goals simp
+  | persist => simp [State.step, State.persist]
+  | restart now ev =>
+    simp only [State.step]
+    rw [restart_changed]
+    have := h.nextPos
+    simp [Changed.new]
 
 /-- the invariant holds along every finite history (fewer than 2^64 changes) -/
 theorem cov_run (ops : List Op) : ∀ (s : State), WF s → Cov s →
@@ -378,6 +384,11 @@ theorem table_capacity {s : State} (op : Op) (hw : WF s) (h : s.count ≤ s.n) :
     simp only [State.step, State.purge]
     repeat' split
     all_goals simpa using h
+  | persist => simpa [State.step, State.persist] using h
+  | restart now ev =>
+    simp only [State.step]
+    rw [restart_eq]
+    exact resumeAll_capacity now ev _ _ (by simp [State.fresh, State.new])
 
 /-! ## (6) events -/
 
@@ -453,44 +464,270 @@ theorem reportCompleteOld_drops_wrong_sub :
     (((witness2.fin 2 .keep).1.fin 1 .keep).1.subs.map (·.id)) = [2] := by
   refine ⟨by decide, by rfl, by rfl, by rfl⟩
 
-/-! ## Eventuality -/
+/-! ## Eventuality
 
-/-- the state after the first `k` operations of an infinite schedule -/
-def stateAt (hz n : Nat) (sched : Nat → Op) : Nat → State
-  | 0 => State.new hz n
-  | k + 1 => (stateAt hz n sched k).step (sched k)
+`stateAt`, `Owes`, `Fair`, the identity invariant `UID` and the tracking argument are in
+`Lemmas/SubsLive.lean`. -/
 
-/-- subscription `id` still owes change `i` in state `s` -/
-def Owes (s : State) (id i : Nat) : Prop := ∃ x ∈ s.live, x.id = id ∧ x.seenAttr < i
-
-/-- Fairness (a hypothesis about the reporter task and the transport, outside the model): every
-live subscription is, again and again, either ended or the subject of a report that begins later
-and is acknowledged (`fin … keep`). -/
-def Fair (hz n : Nat) (sched : Nat → Op) : Prop :=
-  ∀ k id, (∃ x ∈ (stateAt hz n sched k).live, x.id = id) →
-    ∃ k1 k2, k ≤ k1 ∧ k1 < k2 ∧
-      ((¬ ∃ x ∈ (stateAt hz n sched k2).live, x.id = id) ∨
-       ((∃ now ev, sched k1 = .report now ev ∧ ((stateAt hz n sched k1).report now ev).2 = some id) ∧
-        sched k2 = .fin id .keep ∧
-        ∀ j, k1 < j → j < k2 → sched j ≠ .fin id .retry ∧ sched j ≠ .fin id .drop))
-
-/-- **Full statement** (not proved: it needs `Fair`, whose discharge is the scheduling of the
-reporter task and the behaviour of the transport): along every fair schedule without id wrap, every
-change a live subscriber owes is eventually acknowledged, or the subscription ends. -/
+/-- **Full statement**: along every fair schedule (see `Subs.Fair` for the five clauses: one reporter
+task; the reporter pass with its expiry sweep runs again and again while time advances; every begun
+priming / report completes with keep, retry or drop; a subscription does not stay un-primed forever;
+the clock does not overflow) without change-id wrap, a subscription that owes a recorded change does
+not owe it forever. -/
 def C13_full : Prop :=
   ∀ (hz n : Nat) (sched : Nat → Op), Fair hz n sched →
     (∀ k, (stateAt hz n sched k).changed.nextId + 1 < U64) →
-    ∀ k id i, Owes (stateAt hz n sched k) id i → (∃ p, (i, p) ∈ (stateAt hz n sched k).log) →
-      ∃ k', k ≤ k' ∧ ¬ Owes (stateAt hz n sched k') id i
+    ∀ k id i p, (i, p) ∈ (stateAt hz n sched k).log →
+      Owes (stateAt hz n sched k) (stateAt hz n sched k).epoch id i →
+      ∃ k', k ≤ k' ∧ ¬ Owes (stateAt hz n sched k') (stateAt hz n sched k).epoch id i
 
-/-- the invariant along a schedule -/
-theorem inv_stateAt (hz n : Nat) (sched : Nat → Op)
-    (hw : ∀ k, (stateAt hz n sched k).changed.nextId + 1 < U64) :
-    ∀ k, WF (stateAt hz n sched k) ∧ Cov (stateAt hz n sched k) := by
+/-- `C13_full` is proved (by contradiction over the tracking invariant `Subs.Track`: an owing
+subscription that has been in the table since the change was recorded keeps its last-success instant
+`R` through every retry, every report begun for it snapshots a watermark ≥ `i`, so an acknowledgement
+ends the debt; if none comes, the sweep of a reporter pass at or after `R + max_int` removes it). -/
+theorem C13_full_holds : C13_full :=
+  fun _ _ _ hf hw k id i p hlog _ => eventually_not_owes hf hw k id i p hlog
+
+/-- what "does not owe any more" means: the device restarted, or the subscription has ended, or its
+acknowledged watermark has reached the change -/
+theorem not_owes_iff {s : State} (hu : UID s) (ep id i : Nat) :
+    ¬ Owes s ep id i ↔
+      s.epoch ≠ ep ∨ (∀ x ∈ s.live, x.id ≠ id) ∨ (∃ x ∈ s.live, x.id = id ∧ i ≤ x.seenAttr) := by
+  constructor
+  · intro h
+    by_cases he : s.epoch = ep
+    · right
+      by_cases hx : ∃ x ∈ s.live, x.id = id
+      · right
+        obtain ⟨x, hxl, hxid⟩ := hx
+        refine ⟨x, hxl, hxid, ?_⟩
+        apply Nat.le_of_not_lt
+        intro hlt
+        exact h ⟨he, x, hxl, hxid, hlt⟩
+      · left
+        intro x hxl hxid
+        exact hx ⟨x, hxl, hxid⟩
+    · left; exact he
+  · rintro (h | h | ⟨x, hxl, hxid, hge⟩) ⟨he, y, hyl, hyid, hlt⟩
+    · exact h he
+    · exact h y hyl hyid
+    · have := uid_eq hu hxl hyl (hxid.trans hyid.symm)
+      subst this
+      omega
+
+/-- **Eventual delivery, spelled out**: along a fair schedule every change a live subscription has
+not seen is, after finitely many steps, covered by an acknowledged report of that subscription (its
+committed watermark is ≥ the change id: `keep_commits_snapshot`, and while the report was in flight
+its filter selected the change: `owed_in_report`), or the subscription has ended, or the device has
+restarted (after which the resumed subscription is not primed and gets everything). -/
+theorem C13_delivered_or_ended {hz n : Nat} {sched : Nat → Op} (hf : Fair hz n sched)
+    (hw : ∀ k, (stateAt hz n sched k).changed.nextId + 1 < U64)
+    (k id i : Nat) (p : Entry) (hlog : (i, p) ∈ (stateAt hz n sched k).log) :
+    ∃ k', k ≤ k' ∧
+      ((stateAt hz n sched k').epoch ≠ (stateAt hz n sched k).epoch ∨
+       (∀ x ∈ (stateAt hz n sched k').live, x.id ≠ id) ∨
+       (∃ x ∈ (stateAt hz n sched k').live, x.id = id ∧ i ≤ x.seenAttr)) := by
+  obtain ⟨k', hk, h⟩ := eventually_not_owes hf hw k id i p hlog
+  exact ⟨k', hk, (not_owes_iff (inv_stateAt hz n sched hw k').2.2 _ id i).mp h⟩
+
+/-- a failed report changes neither the watermark nor the last-success instant nor the identity of the
+subscription: the retried report is for the same debt (this is the `retry` case of `Subs.track_step`) -/
+theorem retry_keeps_debt (hz : Nat) (c : Ctx) (i : Nat) (h : c.sub.seenAttr < i) :
+    (finSub hz c .retry).seenAttr < i ∧ (finSub hz c .retry).id = c.sub.id ∧
+    (finSub hz c .retry).reportedAt = c.sub.reportedAt := by
+  simp [finSub, Ctx.commit, Ctx.setKeepRetry, h]
+
+/-- **Where the fairness clause `primes` is needed**: a subscription that is not primed (resumed from
+the persisted records after a restart) is never expired, whatever the instant, and a failed report
+leaves it un-primed — so if its subscriber is gone for good it is retried for ever. -/
+theorem resumed_never_expires (hz : Nat) (x : Sub) (now : Nat) (hu : x.reportedAt = IMAX)
+    (hm : 0 < x.maxInt * hz) : x.isExpired hz now = false := by
+  have : ¬ (IMAX + x.maxInt * hz ≤ IMAX) := by omega
+  simp [Sub.isExpired, checkedAdd, hu, this]
+
+theorem retry_keeps_unprimed (hz : Nat) (c : Ctx) (hu : c.sub.reportedAt = IMAX) :
+    (finSub hz c .retry).reportedAt = IMAX := by
+  simp [finSub, Ctx.commit, Ctx.setKeepRetry, hu]
+
+example : ∃ x : Sub, x.reportedAt = IMAX ∧ 0 < x.maxInt * 1000000 :=
+  ⟨{ id := 1, fab := 1, peer := 1, minInt := 1, maxInt := 60, reportedAt := IMAX, retryAt := 0, fail := 0,
+     seenAttr := 0, seenEv := 0 }, rfl, by decide⟩
+
+/-! ### Restart with persisted subscriptions -/
+
+/-- `persist_all` mirrors the table: a subscription that is outside the table at that moment (being
+primed or reported on) is not written -/
+theorem persist_mirrors_table (s : State) : s.persist.kv = (s.subs.take s.n).map Sub.toRec := rfl
+
+/-- after a restart every subscription of the table is not primed (so it is reportable as soon as
+its retry gate allows: `unprimed_is_due`, and its next report selects every attribute:
+`State.shouldReportAttr` is `true`), nothing is in flight, the change table is empty and the
+invariants hold again -/
+theorem restart_resumes (s : State) (now ev : Nat) :
+    (∀ x ∈ (s.restart now ev).subs, x.reportedAt = IMAX ∧ x.retryAt = 0) ∧
+    (s.restart now ev).ctxs = [] ∧ (s.restart now ev).changed = Changed.new ∧
+    (s.restart now ev).log = [] ∧ (s.restart now ev).epoch = s.epoch + 1 ∧
+    WF (s.restart now ev) ∧ Cov (s.restart now ev) ∧ UID (s.restart now ev) := by
+  refine ⟨?_, ?_, restart_changed s now ev, ?_, restart_epoch s now ev, (inv_restart s now ev).1,
+    (inv_restart s now ev).2, uid_restart s now ev⟩
+  · intro x hx
+    rw [restart_eq] at hx
+    have := resumeAll_subs now ev (s.kv.take s.n) s.fresh (by simp [State.fresh, State.new]) x hx
+    exact ⟨this.1, this.2.1⟩
+  · rw [restart_eq, (resumeAll_changed now ev _ _).2.1]; rfl
+  · rw [restart_eq, (resumeAll_changed now ev _ _).2.2.1]; rfl
+
+/-- the records are resumed in slot order, with their intervals -/
+theorem restart_resumes_all (s : State) (now ev : Nat) :
+    (s.restart now ev).subs.map Sub.toRec = s.kv.take s.n := by
+  rw [restart_eq, resumeAll_map now ev _ _ (by simp [State.fresh, State.new]; exact Nat.min_le_left _ _)]
+  simp [State.fresh, State.new]
+
+/-- a resumed subscription reports immediately and its report is a full priming report -/
+theorem resumed_reports_everything (s : State) (now ev t : Nat) (x : Sub)
+    (hx : x ∈ (s.restart now ev).subs) (es : List Entry) (ev' : Nat) :
+    x.isReportable (s.restart now ev).hz t es ev' = true ∧
+    ∀ c : Ctx, c.sub = x → ∀ ep cl attr, (s.restart now ev).shouldReportAttr c ep cl attr = true := by
+  obtain ⟨h1, h2⟩ := (restart_resumes s now ev).1 x hx
+  refine ⟨unprimed_is_due _ x t es ev' h1 (by omega), ?_⟩
+  intro c hc ep cl attr
+  simp [State.shouldReportAttr, hc, h1]
+
+/-! ### The hypotheses of `C13_full` are satisfiable -/
+
+/-- a fair schedule: a subscriber is primed, a change is recorded, reported and acknowledged; from
+then on only the reporter's expiry sweep runs (at the last instant of the clock) -/
+def fairSched : Nat → Op
+  | 0 => .add 0 1 10 1 60 0
+  | 1 => .fin 1 .keep
+  | 2 => .change (P 1 2 3)
+  | 3 => .report 5000000 0
+  | 4 => .fin 1 .keep
+  | _ => .remove (fun x => x.isExpired 1000000 (IMAX - 1))
+
+abbrev fS (k : Nat) : State := stateAt 1000000 1 fairSched k
+
+theorem fS_const : ∀ j, fS (6 + j) = fS 6 := by
+  intro j
+  induction j with
+  | zero => rfl
+  | succ j ih =>
+    show (fS (6 + j)).step (fairSched (6 + j)) = fS 6
+    rw [ih]
+    have : fairSched (6 + j) = .remove (fun x => x.isExpired 1000000 (IMAX - 1)) := by
+      unfold fairSched
+      split <;> first | rfl | omega
+    rw [this]
+    rfl
+
+
+theorem fairSched_ge (k : Nat) (h : 5 ≤ k) :
+    fairSched k = .remove (fun x => x.isExpired 1000000 (IMAX - 1)) := by
+  unfold fairSched
+  split <;> first | rfl | omega
+
+theorem fS_ge (k : Nat) (h : 6 ≤ k) : fS k = fS 6 := by
+  have := fS_const (k - 6)
+  rwa [show 6 + (k - 6) = k by omega] at this
+
+theorem fair_primed (k : Nat) (h : 2 ≤ k) : ∀ x ∈ (fS k).live, x.reportedAt ≠ IMAX := by
+  match k, h with
+  | 2, _ => decide
+  | 3, _ => decide
+  | 4, _ => decide
+  | 5, _ => decide
+  | k + 6, _ => rw [fS_ge (k + 6) (by omega)]; decide
+
+theorem fair_horizon (k : Nat) : ∀ x ∈ (fS k).live, x.reportedAt + x.maxInt * 1000000 < IMAX ∨ x.reportedAt = IMAX := by
+  match k with
+  | 0 => decide
+  | 1 => decide
+  | 2 => decide
+  | 3 => decide
+  | 4 => decide
+  | 5 => decide
+  | k + 6 => rw [fS_ge (k + 6) (by omega)]; decide
+
+theorem fair_example : Fair 1000000 1 fairSched := by
+  refine ⟨?_, ?_, ?_, ?_, ?_⟩
+  · -- one reporter
+    intro k now ev h
+    match k, h with
+    | 0, h => cases h
+    | 1, h => cases h
+    | 2, h => cases h
+    | 3, _ => rfl
+    | 4, h => cases h
+    | k + 5, h => rw [fairSched_ge (k + 5) (by omega)] at h; cases h
+  · -- the sweep runs for ever, at the last instant of the clock
+    intro k T hT
+    refine ⟨k + 6, IMAX - 1, _, by omega, by omega, fairSched_ge (k + 6) (by omega), fun x h => h, ?_⟩
+    show (fS (k + 6)).reporting = none
+    rw [fS_ge (k + 6) (by omega)]; rfl
+  · -- the two contexts complete
+    intro k c hc
+    match k, hc with
+    | 0, hc => simp [stateAt, State.new] at hc
+    | 1, hc =>
+      have hm : (fS 1).ctxs.map (fun c : Ctx => c.sub.id) = [1] := by decide
+      have h1 : c.sub.id = 1 := by
+        have h2 : c.sub.id ∈ (fS 1).ctxs.map (fun c : Ctx => c.sub.id) := List.mem_map_of_mem hc
+        rw [hm] at h2; simpa using h2
+      exact ⟨1, .keep, Nat.le_refl _, by rw [h1]; rfl⟩
+    | 2, hc => have : (fS 2).ctxs = [] := by decide
+               rw [this] at hc; cases hc
+    | 3, hc => have : (fS 3).ctxs = [] := by decide
+               rw [this] at hc; cases hc
+    | 4, hc =>
+      have hm : (fS 4).ctxs.map (fun c : Ctx => c.sub.id) = [1] := by decide
+      have h1 : c.sub.id = 1 := by
+        have h2 : c.sub.id ∈ (fS 4).ctxs.map (fun c : Ctx => c.sub.id) := List.mem_map_of_mem hc
+        rw [hm] at h2; simpa using h2
+      exact ⟨4, .keep, Nat.le_refl _, by rw [h1]; rfl⟩
+    | 5, hc => have : (fS 5).ctxs = [] := by decide
+               rw [this] at hc; cases hc
+    | k + 6, hc =>
+      have h6 : (fS 6).ctxs = [] := by decide
+      have : (fS (k + 6)).ctxs = [] := by rw [fS_ge (k + 6) (by omega)]; exact h6
+      rw [this] at hc; cases hc
+  · -- the priming of subscription 1 completes at step 1
+    intro k x hx hu
+    match k, hx with
+    | 0, hx => simp [stateAt, State.new, State.live] at hx
+    | 1, _ => exact ⟨2, by omega, Or.inr (fun y hy _ => fair_primed 2 (by omega) y hy)⟩
+    | 2, hx => exact absurd hu (fair_primed 2 (by omega) x hx)
+    | 3, hx => exact absurd hu (fair_primed 3 (by omega) x hx)
+    | 4, hx => exact absurd hu (fair_primed 4 (by omega) x hx)
+    | k + 5, hx => exact absurd hu (fair_primed (k + 5) (by omega) x hx)
+  · intro k x hx hne
+    rcases fair_horizon k x hx with h | h
+    · exact h
+    · exact absurd h hne
+
+
+theorem fair_nowrap : ∀ k, (fS k).changed.nextId + 1 < U64 := by
   intro k
-  induction k with
-  | zero => exact inv_init hz n
-  | succ k ih => exact inv_step (sched k) ih.1 ih.2 (hw k)
+  match k with
+  | 0 => decide
+  | 1 => decide
+  | 2 => decide
+  | 3 => decide
+  | 4 => decide
+  | 5 => decide
+  | k + 6 => rw [fS_ge (k + 6) (by omega)]; decide
+
+/-- a fair schedule without wrap on which a subscription owes a recorded change (after step 2) and
+has it acknowledged (after step 4) -/
+example : ∃ (hz n : Nat) (sched : Nat → Op), Fair hz n sched ∧
+    (∀ k, (stateAt hz n sched k).changed.nextId + 1 < U64) ∧
+    ∃ k id i p, (i, p) ∈ (stateAt hz n sched k).log ∧
+      Owes (stateAt hz n sched k) (stateAt hz n sched k).epoch id i ∧
+      ¬ Owes (stateAt hz n sched (k + 2)) (stateAt hz n sched k).epoch id i := by
+  refine ⟨1000000, 1, fairSched, fair_example, fair_nowrap, 3, 1, 1, P 1 2 3, by decide, ?_, ?_⟩
+  · exact ⟨rfl, sub1', by decide, rfl, by decide⟩
+  · rintro ⟨_, x, hx, hid, hlt⟩
+    have h : ∀ x ∈ (fS 5).live, ¬ (x.id = 1 ∧ x.seenAttr < 1) := by decide
+    exact h x hx ⟨hid, hlt⟩
 
 /-- **Proved part of the eventuality** (one reporting cycle, no fairness needed): in every reachable
 state, for a subscription `x` of the table that owes change `(i, p)`:
@@ -514,7 +751,7 @@ theorem C13_eventual_partial (hz n : Nat) (sched : Nat → Op)
       (c ∉ s.ctxs → i ≤ c.commit.seenAttr) ∧
       (c.setKeepRetry s.hz).commit.seenAttr = x.seenAttr) := by
   intro s
-  obtain ⟨hwf, hcov⟩ := inv_stateAt hz n sched hw k
+  obtain ⟨hwf, hcov, _⟩ := inv_stateAt hz n sched hw k
   have hpend := owed_is_pending hcov hx hlog hlt ev
   refine ⟨report_progress ⟨x, hx, pending_is_reportable _ x now _ ev hpend ha⟩,
     wake_not_late hx ev hpend, ?_⟩
